@@ -145,8 +145,15 @@ func run(p *kernel.Plan) (res *kernel.Result) {
 		logger.Switch(struct{ io.Writer }{w})
 	}
 	installHook(func(point string) {
-		if t := s.Cur(); t != nil {
+		// no preemption while the task holds a mutex of the library: a task
+		// parked there would block the others on a real lock
+		if t := s.Cur(); t != nil && t.LockDepth <= 0 {
 			t.Yield(point)
+		}
+	})
+	installLock(func(delta int) {
+		if t := s.Cur(); t != nil {
+			t.LockDepth += delta
 		}
 	})
 	defer installHook(nil)
@@ -265,10 +272,12 @@ func run(p *kernel.Plan) (res *kernel.Result) {
 	}
 	s.Join()
 	installHook(nil)
+	installLock(nil)
 	res.Hash, res.Inter = s.Log.Hash(), s.Log.Interleaving()
 	res.Stat("preemption_yields", int64(s.Steps))
 	res.Stat("task_switches", int64(s.Switches))
 	res.Stat("race_engine_runs", 1)
+	res.Stat("releases_left_blocked_on_a_real_lock", int64(s.RealBlocked))
 	if preemptionPoints {
 		res.Stat("runs_with_inserted_preemption_points", 1)
 	}
